@@ -70,6 +70,8 @@ def _WIFEXITED(s):
 def _WEXITSTATUS(s):
     if isinstance(s, StatusExited):
         return s.rc
+    if isinstance(s, StatusSignaled):
+        return 0          # what the macro yields for a "killed by signal" status (bits 8..15 are zero)
     return _REAL_W[1](s)
 
 
@@ -84,6 +86,8 @@ def _WIFSIGNALED(s):
 def _WTERMSIG(s):
     if isinstance(s, StatusSignaled):
         return s.sig
+    if isinstance(s, StatusExited):
+        return 0          # low 7 bits of an "exited" status
     return _REAL_W[3](s)
 
 
